@@ -50,6 +50,8 @@ class Contract:
         self.native_check = kw.pop("native_check", None)
         self.no_merge = kw.pop("no_merge", False)
         self.hints = kw.pop("hints", {})  # {callee-qualname-suffix: f(c)}: proved right after that call returns, then assumed (proof hint)
+        self.inline = kw.pop("inline", ())  # (harness) callees whose BODY is executed although they have a modular contract
+        self.only_props = kw.pop("only_props", False)  # serve only the listed properties (not every property anchored in the file)
         self.bounded = kw.pop("bounded", None)  # (script, n_quick, n_thorough): bounded run-time stand-in, never counted as proved  # fork at every `if` instead of merging states (smaller queries, more paths)  # CPython twin of the postcondition: f(args: dict, result) -> bool  # crash condition: must hold after every state-mutating call in the body  # custom native replay driver
         if kw:
             raise TypeError(f"unknown contract fields {list(kw)}")
@@ -68,7 +70,40 @@ class Registry:
         return self.by_name.get(qualname)
 
     def for_property(self, pid):
-        return [c for c in self.by_name.values() if pid in c.props]
+        """contracts that serve a property: those that list it, and every contract (or stand-in) on a function of a file the
+        property is anchored in -- a change anywhere in an anchored file is looked at by the property's own check"""
+        files = _anchors().get(pid, set())
+        return [c for c in self.by_name.values()
+                if pid in c.props or (not c.only_props and c.props and (c.verify or c.bounded) and _file_of(c.qualname) in files)]
+
+
+_ANCH = None
+
+
+def _anchors():
+    global _ANCH
+    if _ANCH is None:
+        import json
+        import os
+        _ANCH = {}
+        p = os.path.join(os.path.dirname(os.path.dirname(os.path.abspath(__file__))), "properties.jsonl")
+        for line in open(p):
+            if line.strip():
+                d = json.loads(line)
+                _ANCH[d["id"]] = set(d.get("anchors", {}).get("files", []))
+    return _ANCH
+
+
+def _file_of(qualname):
+    import os
+    if qualname.startswith("ext:") or ":" not in qualname:
+        return None
+    mod = qualname.split(":")[0]
+    src = os.environ.get("PYVC_REPO_SRC", "/repo/src")
+    f = mod.replace(".", "/") + ".py"
+    if not os.path.exists(os.path.join(src, f)):
+        f = mod.replace(".", "/") + "/__init__.py"
+    return "src/" + f
 
 
 REG = Registry()
